@@ -247,6 +247,22 @@ pub(crate) fn parent_id(id: usize) -> Option<usize> {
 }
 
 // `CSIv1.pdf` (2020-07-21)
+#[cfg(noodles_verif)]
+pub(crate) fn verif_reg2bin(start: Position, end: Position, min_shift: u8, depth: u8) -> usize {
+    reg2bin(start, end, min_shift, depth)
+}
+
+#[cfg(noodles_verif)]
+pub(crate) fn verif_reg2bins(
+    start: Position,
+    end: Position,
+    min_shift: u8,
+    depth: u8,
+    bins: &mut BitVec,
+) {
+    reg2bins(start, end, min_shift, depth, bins)
+}
+
 fn reg2bin(start: Position, end: Position, min_shift: u8, depth: u8) -> usize {
     // [beg, end), 0-based
     let beg = usize::from(start) - 1;
